@@ -57,13 +57,14 @@ def gen(rng):
             loop = rng.random() < 0.5
             kw = []
             form = rng.random()
+            sp_style = rng.choice([style, style, style, style.upper(), style.capitalize()])  # the name is case-insensitive
             if form < 0.5:
-                L.append(f"lcd{li}.animate(\"{style}\", {r}, {text!r}, speed_ms={speed}, loop={loop})")
+                L.append(f"lcd{li}.animate(\"{sp_style}\", {r}, {text!r}, speed_ms={speed}, loop={loop})")
             elif form < 0.8:
-                L.append(f"lcd{li}.animate(style=\"{style}\", row={r}, text={text!r}, loop={loop}, speed_ms={speed})")
+                L.append(f"lcd{li}.animate(style=\"{sp_style}\", row={r}, text={text!r}, loop={loop}, speed_ms={speed})")
             else:
                 L.append(f"sp = {speed}")
-                L.append(f"lcd{li}.animate(\"{style}\", {r}, {text!r}, speed_ms=sp, loop={loop})")
+                L.append(f"lcd{li}.animate(\"{sp_style}\", {r}, {text!r}, speed_ms=sp, loop={loop})")
             L.append(f"mon.write(\"@start\")")
             anims.append({"lcd": li, "row": r, "style": style, "text": text, "speed": speed, "loop": loop, "cols": cols,
                           "static_rows": static_rows})
@@ -248,7 +249,9 @@ def run_host_case(case):
         other = {q: lcd.buffer[q] for q in range(rows) if q != row}
         label = f"{style} text={text!r} cols={cols} rows={rows} speed={speed} loop={loop}"
         try:
-            lcd.animate(style, row, text, speed_ms=speed, loop=loop)
+            # animate() accepts the style name in any letter case
+            spelled = r.choice([style, style, style.upper(), style.capitalize(), style[0] + style[1:].upper()])
+            lcd.animate(spelled, row, text, speed_ms=speed, loop=loop)
         except PostBroken as e:
             problems.append(("host-frame-width", f"animate({label}): row width invariant broken"))
             continue
